@@ -674,6 +674,19 @@ def check_c08(tier, seed):
     from . import imagechecks
     run_batch(out, "surplus", "A", imagechecks.surplus_histories(out, tier, seed))
     imagechecks.machinery_errors(out)
+    # growth on a real file made by cfb::create(path) where an older, longer file (20,000 bytes of 0xAB) lay: whatever that
+    # file held must not come back as stream data when sectors are appended
+    sp = gens.sp
+    hs = []
+    for i, (first, grown) in enumerate([(0, 5000), (0, 20000), (100, 4096), (3000, 9000), (4096, 30000), (5000, 70000)]):
+        ops = [{"op": "create_stream", "p": sp(["a"]), "heavy": False}]
+        if first:
+            ops.append({"op": "write", "p": sp(["a"]), "off": 0, "runs": [[7, first]], "heavy": False})
+        ops += [{"op": "set_len", "p": sp(["a"]), "n": grown, "heavy": True}, {"op": "read", "p": sp(["a"]), "heavy": False},
+                {"op": "create_stream", "p": sp(["bar"]), "heavy": False}, {"op": "set_len", "p": sp(["bar"]), "n": grown + 4096, "heavy": True},
+                {"op": "read", "p": sp(["bar"]), "heavy": False}]
+        hs.append({"id": f"pathgrow{i}", "ver": 4, "heavy": "marked", "ops": ops, "backend": {"kind": "path", "chunks": []}})
+    run_batch(out, "file-over-older-file", "A", hs)
     return finish(out, "model_checking",
                   "design level: MC_Phys with the bytes of every sector in the state (InvData, ZeroExposure; exhaustive at tiny geometry); "
                   "CfbTree.SetLen extends with a zero run; all writes use fresh non-zero fill bytes so stale data is a mismatch in api / Abs(img) / reopen dumps. "
@@ -732,6 +745,11 @@ def check_c07(tier, seed):
     # structural mutation at the geometry thresholds (a second directory sector, a second MiniFAT sector whose tail is
     # released again): what one removal or shrink does to the tables must leave every other entry and stream intact
     run_batch(out, "thresholds", "A", [h for h in gens.threshold_histories(tier, seed) if "difat" not in h["id"] and "fatgrow" not in h["id"]])
+    # files written by others in which an EMPTY stream's start field names a sector another stream owns: whatever is done to the
+    # empty stream (through handles: write, set_len, removal, re-creation) must leave the owner alone
+    from . import imagechecks
+    es = imagechecks.emptystart_histories(out, tier, seed)
+    run_batch(out, "emptystart", "A", es if tier != "quick" else es[::2])
     return finish(out, "model_checking",
                   "handles held open across structural mutation of OTHER entries, then used (library-written files, TLC-generated foreign layouts with red-black "
                   "trees, and layouts carrying tolerated deviations opened permissively); full api / Abs(img) / reopen equality after every step",
